@@ -154,3 +154,62 @@ package encoding
 //@   prop C14
 //@   ensures result == d.val
 //@ end
+
+//@ # ---- delta bit packing: scalar core of the round trip (all arithmetic wraps consistently) ------------
+//@ lemma delta_roundtrip bv prop C14: allof(prev, "int32", v, "int32", minDelta, "int32", prev - (int32(uint32((prev - v) - minDelta)) + minDelta) == v)
+//@ lemma delta_width_holds_every_delta bv prop C14 using clz32_def: allof(dd, "uint32", max, "uint32", dd <= max ==> (clz32(max) > 0 ==> dd >> uint(32 - clz32(max)) == 0))
+//@ func DeltaBitPackingEncoder.Add
+//@   prop C14
+//@   modifies p.hasFirst, p.first, p.previous, p.deltas, p.minDelta
+//@   ensures[first_value_kept_raw] !old(p.hasFirst) ==> (p.hasFirst && p.first == v && p.previous == v && len(p.deltas) == old(len(p.deltas)) && p.minDelta == old(p.minDelta))
+//@   ensures[delta_to_previous_appended] old(p.hasFirst) ==> (len(p.deltas) == old(len(p.deltas)) + 1 && p.deltas[old(len(p.deltas))] == old(p.previous) - v && p.previous == v && p.first == old(p.first) && p.hasFirst && forall(i, 0, old(len(p.deltas)), p.deltas[i] == old(p.deltas[i])))
+//@   ensures[min_delta_tracks_minimum] old(p.hasFirst) ==> (p.minDelta <= old(p.minDelta) && p.minDelta <= old(p.previous) - v && (p.minDelta == old(p.minDelta) || p.minDelta == old(p.previous) - v))
+//@ end
+//@ func DeltaBitPackingDecoder.HasNext
+//@   prop C14
+//@   ensures result == (d.pos > 0)
+//@ end
+
+//@ # ---- time series block decoder: reuse through the pool starts from a clean state --------------------
+//@ func TSDDecoder.reset
+//@   prop C14
+//@   requires d.buf != nil ==> (d.values != nil && d.reader != nil && d.values.br == d.reader && d.reader.buf == d.buf)
+//@   modifies d.buf, d.reader, d.values, d.idx, d.err, d.values.first, d.values.leading, d.values.trailing, d.values.err, d.values.val, d.buf.buf, d.buf.index, d.buf.length
+//@   ensures[pooled_reuse_starts_clean] d.idx == 0 && d.err == nil && d.buf != nil && d.values != nil && d.reader != nil && d.values.br == d.reader && d.reader.buf == d.buf
+//@   ensures[value_decoder_starts_clean] d.values.first && d.values.leading == 0 && d.values.trailing == 0 && d.values.err == nil && d.values.val == 0
+//@   ensures[reads_the_new_block] d.buf.buf == data && d.buf.index == 0 && d.buf.length == len(data)
+//@   ensures[objects_are_created_once] (old(d.buf) == nil ==> (fresh(d.buf) && fresh(d.reader) && fresh(d.values))) && (old(d.buf) != nil ==> (d.buf == old(d.buf) && d.reader == old(d.reader) && d.values == old(d.values)))
+//@ end
+//@ predicate tsdDecWired(d *TSDDecoder) bool = d.buf != nil ==> (d.values != nil && d.reader != nil && d.values.br == d.reader && d.reader.buf == d.buf)
+//@ func TSDDecoder.ResetWithTimeRange
+//@   prop C14
+//@   requires tsdDecWired(d)
+//@   modifies d.buf, d.reader, d.values, d.idx, d.err, d.startTime, d.endTime, d.values.first, d.values.leading, d.values.trailing, d.values.err, d.values.val, d.buf.buf, d.buf.index, d.buf.length, d.reader.err, d.reader.count, d.reader.b
+//@   ensures[pooled_reuse_starts_clean] d.idx == 0 && d.err == nil && d.startTime == start && d.endTime == end && d.buf != nil && tsdDecWired(d)
+//@   ensures[value_decoder_starts_clean] d.values.first && d.values.leading == 0 && d.values.trailing == 0 && d.values.err == nil && d.values.val == 0
+//@   ensures[bit_reader_starts_clean] d.reader.err == nil && d.reader.count == 0 && d.reader.b == 0
+//@   ensures[reads_the_new_block_from_its_start] d.buf.buf == data && d.buf.index == 0 && d.buf.length == len(data)
+//@ end
+//@ func TSDDecoder.Reset
+//@   prop C14
+//@   requires tsdDecWired(d)
+//@   modifies d.buf, d.reader, d.values, d.idx, d.err, d.startTime, d.endTime, d.values.first, d.values.leading, d.values.trailing, d.values.err, d.values.val, d.buf.buf, d.buf.index, d.buf.length, d.reader.err, d.reader.count, d.reader.b
+//@   ensures[short_block_is_an_error] len(data) <= 4 ==> d.err != nil
+//@   ensures[pooled_reuse_starts_clean] len(data) > 4 ==> (d.idx == 0 && d.err == nil && d.buf != nil && tsdDecWired(d))
+//@   ensures[time_range_from_header] len(data) > 4 ==> (d.startTime == uint16(data[0]) | uint16(data[1]) << 8 && d.endTime == uint16(data[2]) | uint16(data[3]) << 8)
+//@   ensures[value_decoder_starts_clean] len(data) > 4 ==> (d.values.first && d.values.leading == 0 && d.values.trailing == 0 && d.values.err == nil && d.values.val == 0)
+//@   ensures[bit_reader_starts_clean] len(data) > 4 ==> (d.reader.err == nil && d.reader.count == 0 && d.reader.b == 0)
+//@   ensures[reads_the_new_block_after_the_header] len(data) > 4 ==> (d.buf.buf == data && d.buf.index == 4 && d.buf.length == len(data))
+//@ end
+//@ func TSDDecoder.Next
+//@   prop C14
+//@   modifies d.idx
+//@   ensures[slots_in_range_only] result == (old(d.startTime + d.idx) <= d.endTime) && (result ==> d.idx == old(d.idx) + 1) && (!result ==> d.idx == old(d.idx))
+//@ end
+//@ func TSDDecoder.HasValueWithSlot
+//@   prop C14
+//@   requires d.reader != nil ==> bit.rSane(d.reader)
+//@   modifies d.idx, d.err, d.reader.b, d.reader.count, d.reader.err, d.reader.buf.index
+//@   ensures[only_the_next_slot_is_read] (slot < d.startTime || slot > d.endTime || slot != old(d.idx) + d.startTime) ==> (!result && d.idx == old(d.idx) && (d.reader != nil ==> bit.rpos(d.reader) == old(bit.rpos(d.reader))))
+//@   ensures[next_slot_reads_one_mask_bit] (slot >= d.startTime && slot <= d.endTime && slot == old(d.idx) + d.startTime && d.reader != nil && old(d.reader.err) == nil && old(bit.rpos(d.reader)) < d.reader.buf.length * 8) ==> (d.idx == old(d.idx) + 1 && result == old(bit.rbitAt(d.reader, bit.rpos(d.reader))) && bit.rpos(d.reader) == old(bit.rpos(d.reader)) + 1)
+//@ end
